@@ -1,4 +1,415 @@
 import PsaDhcp.Model.Fs
 import PsaDhcp.Model.Resources
+/-
+Proofs for C19 (socket / goroutine disciplines) and C20 (atomic resolv.conf replacement).
+-/
 namespace PsaDhcp.Proofs.OsEdge
+open PsaDhcp
+
+/-! ## C19 — resources -/
+
+/-- One-step invariant of the discipline machine. -/
+structure Good (d : Discipline) (s : RState) : Prop where
+  le : s.closed ≤ s.opened
+  one : s.opened ≤ 1
+  bal : s.sockOpen = true ↔ s.opened = s.closed + 1
+  fresh : s.started = false → s.opened = 0
+  closer : d = .closerOnCancel → s.closerAlive = s.sockOpen
+  noCloser : d ≠ .closerOnCancel → s.closerAlive = false
+  retC : s.running = false → d = .closerOnCancel → s.ctxDone = true ∨ s.sockOpen = false
+  retD : s.running = false → d ≠ .closerOnCancel → d ≠ .unknown → s.sockOpen = false
+
+theorem good_init (d : Discipline) : Good d {} := by
+  constructor <;> simp
+
+theorem good_step (d : Discipline) (s : RState) (o : Outcome) (h : Good d s) : Good d (rstep d s o) := by
+  obtain ⟨opened, closed, sockOpen, started, running, closerAlive, ctxDone⟩ := s
+  obtain ⟨h1, h2, h3, h4, h5, h6, h7, h8⟩ := h
+  simp only at h1 h2 h3 h4 h5 h6 h7 h8
+  cases d <;> cases o <;> cases sockOpen <;> cases started <;> cases running <;> cases closerAlive <;> cases ctxDone <;>
+    (unfold rstep; simp_all [ret, closeSock]) <;> (constructor <;> simp <;> omega)
+
+theorem good_run (d : Discipline) (os : List Outcome) : ∀ s, Good d s → Good d (rrun d s os) := by
+  induction os with
+  | nil => intro s h; exact h
+  | cons o os ih => intro s h; exact ih _ (good_step d s o h)
+
+theorem rrun_append (d : Discipline) (s : RState) (os os' : List Outcome) :
+    rrun d s (os ++ os') = rrun d (rrun d s os) os' := by
+  simp [rrun, List.foldl_append]
+
+theorem no_leak (d : Discipline) (hd : d ≠ .unknown) (os : List Outcome) :
+    let s := settle d (rrun d {} os)
+    s.running = false → (s.opened = s.closed ∧ s.sockOpen = false ∧ s.closerAlive = false) := by
+  have h := good_run d os {} (good_init d)
+  generalize rrun d {} os = s at h
+  obtain ⟨opened, closed, sockOpen, started, running, closerAlive, ctxDone⟩ := s
+  obtain ⟨h1, h2, h3, h4, h5, h6, h7, h8⟩ := h
+  simp only at h1 h2 h3 h4 h5 h6 h7 h8
+  cases d <;> cases sockOpen <;> cases running <;> cases closerAlive <;> cases ctxDone <;>
+    simp_all [settle, closeSock] <;> omega
+
+theorem balance_invariant (d : Discipline) (os : List Outcome) :
+    let s := rrun d {} os
+    s.closed ≤ s.opened ∧ s.opened ≤ 1 ∧ (s.sockOpen = true ↔ s.opened = s.closed + 1) := by
+  have h := good_run d os {} (good_init d)
+  exact ⟨h.le, h.one, h.bal⟩
+
+theorem closer_shutdown_prompt (os : List Outcome) (o : Outcome) (ho : o = .ioOk ∨ o = .ioFails ∨ o = .bodyReturns)
+    (hs : (rrun .closerOnCancel {} os).started = true) :
+    (rrun .closerOnCancel {} (os ++ [.parentCancelled, o])).running = false := by
+  have h := good_run .closerOnCancel os {} (good_init _)
+  rw [rrun_append]
+  generalize rrun .closerOnCancel {} os = s at h hs
+  obtain ⟨opened, closed, sockOpen, started, running, closerAlive, ctxDone⟩ := s
+  obtain ⟨h1, h2, h3, h4, h5, h6, h7, h8⟩ := h
+  simp only at h1 h2 h3 h4 h5 h6 h7 h8 hs
+  subst hs
+  rcases ho with rfl | rfl | rfl <;>
+    cases sockOpen <;> cases running <;> cases closerAlive <;> cases ctxDone <;>
+    simp_all [rrun, List.foldl] <;> (unfold rstep; simp [ret, closeSock]) <;> (unfold rstep; simp [ret, closeSock])
+
+theorem returned_is_final (d : Discipline) (s : RState) (o : Outcome) (h : s.running = false) :
+    (rstep d s o).running = false ∧ (rstep d s o).opened = s.opened := by
+  obtain ⟨opened, closed, sockOpen, started, running, closerAlive, ctxDone⟩ := s
+  simp only at h
+  subst h
+  unfold rstep
+  cases sockOpen <;> cases closerAlive <;> cases ctxDone <;> simp [closeSock]
+
+/-! ## C20 — atomic replacement -/
+
+/-- What a writer's program counter says about its temp file. -/
+def PcInv (tmps : List (Option File)) (w : Writer) : Prop :=
+  match w.pc with
+  | .close | .check => ∃ t m, w.tmp = some t ∧ tmps[t]? = some (some ⟨w.buf.take w.nr, m⟩)
+  | .chmod => ∃ t m, w.tmp = some t ∧ tmps[t]? = some (some ⟨w.buf, m⟩)
+  | .rename => ∃ t, w.tmp = some t ∧ tmps[t]? = some (some ⟨w.buf, 0o644⟩)
+  | .create => w.tmp = none
+  | .doneErr => w.tmp = none ∨ ∃ t, w.tmp = some t ∧ tmps[t]? = some none
+  | _ => True
+
+theorem PcInv.frame {tmps tmps' : List (Option File)} {w : Writer}
+    (hf : ∀ t, w.tmp = some t → tmps'[t]? = tmps[t]?) (h : PcInv tmps w) : PcInv tmps' w := by
+  unfold PcInv at h ⊢
+  split at h
+  · obtain ⟨t, m, ht, hc⟩ := h; exact ⟨t, m, ht, by rw [hf t ht]; exact hc⟩
+  · obtain ⟨t, m, ht, hc⟩ := h; exact ⟨t, m, ht, by rw [hf t ht]; exact hc⟩
+  · obtain ⟨t, m, ht, hc⟩ := h; exact ⟨t, m, ht, by rw [hf t ht]; exact hc⟩
+  · obtain ⟨t, ht, hc⟩ := h; exact ⟨t, ht, by rw [hf t ht]; exact hc⟩
+  · exact h
+  · rcases h with h | ⟨t, ht, hc⟩
+    · exact Or.inl h
+    · exact Or.inr ⟨t, ht, by rw [hf t ht]; exact hc⟩
+  · trivial
+
+structure Inv (old : Option File) (bufs : List Bytes) (fs : FS) : Prop where
+  bufs : ∀ (i : Nat) (w : Writer), fs.ws[i]? = some w → bufs[i]? = some w.buf
+  tgt : (fs.target = old ∧ ∀ (i : Nat) (w : Writer), fs.ws[i]? = some w → w.pc ≠ .doneOk) ∨
+        ∃ (i : Nat) (w : Writer), fs.ws[i]? = some w ∧ w.pc = .doneOk ∧ fs.target = some ⟨w.buf, 0o644⟩
+  lt : ∀ (i : Nat) (w : Writer) (t : Nat), fs.ws[i]? = some w → w.tmp = some t → t < fs.tmps.length
+  distinct : ∀ (i j : Nat) (wi wj : Writer) (t : Nat), fs.ws[i]? = some wi → fs.ws[j]? = some wj → i ≠ j → wi.tmp = some t → wj.tmp ≠ some t
+  pcinv : ∀ (i : Nat) (w : Writer), fs.ws[i]? = some w → PcInv fs.tmps w
+
+theorem set_lookup {α} {l : List α} {i j : Nat} {a x : α} (h : (l.set i a)[j]? = some x) :
+    (j = i ∧ x = a) ∨ (j ≠ i ∧ l[j]? = some x) := by
+  by_cases hij : i = j
+  · subst hij
+    rw [List.getElem?_set] at h
+    simp at h
+    exact Or.inl ⟨rfl, h.2.symm⟩
+  · rw [List.getElem?_set_ne hij] at h
+    exact Or.inr ⟨fun e => hij e.symm, h⟩
+
+theorem set_self {α} {l : List α} {i : Nat} {a w : α} (h : l[i]? = some w) : (l.set i a)[i]? = some a := by
+  have : i < l.length := by
+    rcases List.getElem?_eq_some_iff.mp h with ⟨hi, _⟩; exact hi
+  simp [this]
+
+/-- Generic preservation: writer `i` moves from `w` to `w'`, touching only its own temp file. -/
+theorem Inv.update {old : Option File} {bufs : List Bytes} {fs : FS} (h : Inv old bufs fs)
+    {i : Nat} {w : Writer} (hw : fs.ws[i]? = some w) (hnd : w.pc ≠ .doneOk)
+    (w' : Writer) (tmps' : List (Option File)) (target' : Option File)
+    (hbuf : w'.buf = w.buf)
+    (hlen : fs.tmps.length ≤ tmps'.length)
+    (hframe : ∀ t, w'.tmp ≠ some t → t < fs.tmps.length → tmps'[t]? = fs.tmps[t]?)
+    (htmp : w'.tmp = w.tmp ∨ (w'.tmp = some fs.tmps.length ∧ fs.tmps.length < tmps'.length))
+    (hpc : PcInv tmps' w')
+    (htgt : (target' = fs.target ∧ w'.pc ≠ .doneOk) ∨ (w'.pc = .doneOk ∧ target' = some ⟨w'.buf, 0o644⟩)) :
+    Inv old bufs { target := target', tmps := tmps', ws := fs.ws.set i w' } := by
+  -- another writer's temp name differs from the new temp name of writer `i`
+  have other : ∀ j x t, j ≠ i → fs.ws[j]? = some x → x.tmp = some t → w'.tmp ≠ some t := by
+    intro j x t hji hx hxt hc
+    rcases htmp with e | ⟨e, _⟩
+    · exact h.distinct i j w x t hw hx (fun e => hji e.symm) (e ▸ hc) hxt
+    · have := h.lt j x t hx hxt
+      rw [e] at hc; cases hc; omega
+  constructor
+  · intro j x hx
+    rcases set_lookup hx with ⟨rfl, rfl⟩ | ⟨_, hx⟩
+    · rw [hbuf]; exact h.bufs _ _ hw
+    · exact h.bufs _ _ hx
+  · show (target' = old ∧ _) ∨ _
+    rcases htgt with ⟨ht, hp⟩ | ⟨hp, ht⟩
+    · rcases h.tgt with ⟨ho, hall⟩ | ⟨j, x, hx, hxp, hxt⟩
+      · refine Or.inl ⟨ht.trans ho, ?_⟩
+        intro j x hx
+        rcases set_lookup hx with ⟨rfl, rfl⟩ | ⟨_, hx⟩
+        · exact hp
+        · exact hall _ _ hx
+      · refine Or.inr ⟨j, x, ?_, hxp, ht.trans hxt⟩
+        have hji : i ≠ j := by
+          rintro rfl
+          rw [hw] at hx; cases hx; exact hnd hxp
+        show (fs.ws.set i w')[j]? = some x
+        rw [List.getElem?_set_ne hji]; exact hx
+    · exact Or.inr ⟨i, w', set_self hw, hp, ht⟩
+  · intro j x t hx hxt
+    show t < tmps'.length
+    rcases set_lookup hx with ⟨rfl, rfl⟩ | ⟨_, hx⟩
+    · rcases htmp with e | ⟨e, hl⟩
+      · have := h.lt _ _ t hw (e ▸ hxt); omega
+      · rw [e] at hxt; cases hxt; exact hl
+    · have := h.lt _ _ t hx hxt; omega
+  · intro j k wj wk t hj hk hjk hjt
+    rcases set_lookup hj with ⟨rfl, rfl⟩ | ⟨hji, hj'⟩
+    · rcases set_lookup hk with ⟨rfl, rfl⟩ | ⟨hki, hk'⟩
+      · exact absurd rfl hjk
+      · intro hc; exact other k wk t hki hk' hc hjt
+    · rcases set_lookup hk with ⟨rfl, rfl⟩ | ⟨hki, hk'⟩
+      · exact other j wj t hji hj' hjt
+      · exact h.distinct j k wj wk t hj' hk' hjk hjt
+  · intro j x hx
+    show PcInv tmps' x
+    rcases set_lookup hx with ⟨rfl, rfl⟩ | ⟨hji, hx⟩
+    · exact hpc
+    · refine PcInv.frame ?_ (h.pcinv j x hx)
+      intro t hxt
+      exact hframe t (other j x t hji hx hxt) (h.lt j x t hx hxt)
+
+/-- Only the writer record changes (program counter, flags); no file is touched. -/
+theorem Inv.setPc {old : Option File} {bufs : List Bytes} {fs : FS} (h : Inv old bufs fs)
+    {i : Nat} {w : Writer} (hw : fs.ws[i]? = some w) (hnd : w.pc ≠ .doneOk)
+    (w' : Writer) (hbuf : w'.buf = w.buf) (htmp : w'.tmp = w.tmp) (hpc : PcInv fs.tmps w')
+    (hp : w'.pc ≠ .doneOk) : Inv old bufs (setW fs i w') :=
+  Inv.update h hw hnd w' fs.tmps fs.target hbuf (Nat.le_refl _) (fun _ _ _ => rfl) (Or.inl htmp) hpc
+    (Or.inl ⟨rfl, hp⟩)
+
+theorem Inv.stepWriter {old : Option File} {bufs : List Bytes} {fs : FS} (h : Inv old bufs fs)
+    {i : Nat} {w : Writer} (hw : fs.ws[i]? = some w) (c : Choice) : Inv old bufs (stepWriter fs i w c) := by
+  have hP := h.pcinv i w hw
+  have setFrame : ∀ (t : Nat) (x : Option File) (w' : Writer), w'.tmp = some t →
+      ∀ t', w'.tmp ≠ some t' → t' < fs.tmps.length → (fs.tmps.set t x)[t']? = fs.tmps[t']? := by
+    intro t x w' e t' hne _
+    have : t ≠ t' := fun e' => hne (by rw [e, e'])
+    exact List.getElem?_set_ne this
+  unfold PsaDhcp.stepWriter
+  split
+  next hpc =>
+    -- create
+    have hnd : w.pc ≠ .doneOk := by simp [hpc]
+    simp only [PcInv, hpc] at hP
+    split
+    · exact h.setPc hw hnd _ rfl rfl (by simp [PcInv, hP]) (by simp)
+    · refine Inv.update h hw hnd _ (fs.tmps ++ [some ⟨[], 0o600⟩]) fs.target ?_ ?_ ?_ ?_ ?_ ?_
+      · rfl
+      · simp
+      · intro t _ ht
+        exact List.getElem?_append_left ht
+      · exact Or.inr ⟨rfl, by simp⟩
+      · simp [PcInv]
+      · exact Or.inl ⟨rfl, by simp⟩
+  next hpc =>
+    -- write
+    have hnd : w.pc ≠ .doneOk := by simp [hpc]
+    split
+    · exact h
+    next t htmp =>
+      have hlt := h.lt i w t hw htmp
+      refine Inv.update h hw hnd _ (fs.tmps.set t _) fs.target ?_ ?_ ?_ ?_ ?_ ?_
+      · rfl
+      · simp
+      · exact setFrame t _ _ htmp
+      · exact Or.inl rfl
+      · simp only [PcInv]
+        exact ⟨t, _, htmp, by rw [List.getElem?_set_self hlt]⟩
+      · exact Or.inl ⟨rfl, by simp⟩
+  next hpc =>
+    -- close
+    have hnd : w.pc ≠ .doneOk := by simp [hpc]
+    simp only [PcInv, hpc] at hP
+    exact h.setPc hw hnd _ rfl rfl (by simpa [PcInv] using hP) (by simp)
+  next hpc =>
+    -- check
+    have hnd : w.pc ≠ .doneOk := by simp [hpc]
+    simp only [PcInv, hpc] at hP
+    split
+    · exact h.setPc hw hnd _ rfl rfl (by simp [PcInv]) (by simp)
+    next hc =>
+      have hnr : w.nr = w.buf.length := by
+        simp only [not_or, Decidable.not_not] at hc; exact hc.2.2
+      rw [hnr, List.take_length] at hP
+      exact h.setPc hw hnd _ rfl rfl (by simpa [PcInv] using hP) (by simp)
+  next hpc =>
+    -- chmod
+    have hnd : w.pc ≠ .doneOk := by simp [hpc]
+    simp only [PcInv, hpc] at hP
+    split
+    · exact h
+    next t htmp =>
+      split
+      · exact h.setPc hw hnd _ rfl rfl (by simp [PcInv]) (by simp)
+      · obtain ⟨t', m, ht', hc⟩ := hP
+        rw [htmp] at ht'; cases ht'
+        have hlt := h.lt i w t hw htmp
+        refine Inv.update h hw hnd _ (fs.tmps.set t _) fs.target ?_ ?_ ?_ ?_ ?_ ?_
+        · rfl
+        · simp
+        · exact setFrame t _ _ htmp
+        · exact Or.inl rfl
+        · simp only [PcInv]
+          exact ⟨t, htmp, by rw [List.getElem?_set_self hlt, hc]⟩
+        · exact Or.inl ⟨rfl, by simp⟩
+  next hpc =>
+    -- rename
+    have hnd : w.pc ≠ .doneOk := by simp [hpc]
+    simp only [PcInv, hpc] at hP
+    split
+    · exact h
+    next t htmp =>
+      split
+      · exact h.setPc hw hnd _ rfl rfl (by simp [PcInv]) (by simp)
+      · obtain ⟨t', ht', hc⟩ := hP
+        rw [htmp] at ht'; cases ht'
+        split
+        next f hf =>
+          rw [hc] at hf; cases hf
+          refine Inv.update h hw hnd _ (fs.tmps.set t none) _ ?_ ?_ ?_ ?_ ?_ ?_
+          · rfl
+          · simp
+          · exact setFrame t _ _ htmp
+          · exact Or.inl rfl
+          · simp [PcInv]
+          · exact Or.inr ⟨rfl, rfl⟩
+        · exact h.setPc hw hnd _ rfl rfl (by simp [PcInv]) (by simp)
+  next hpc =>
+    -- cleanup
+    have hnd : w.pc ≠ .doneOk := by simp [hpc]
+    split
+    next htmp => exact h.setPc hw hnd _ rfl rfl (by simp [PcInv, htmp]) (by simp)
+    next t htmp =>
+      have hlt := h.lt i w t hw htmp
+      refine Inv.update h hw hnd _ (fs.tmps.set t none) fs.target ?_ ?_ ?_ ?_ ?_ ?_
+      · rfl
+      · simp
+      · exact setFrame t _ _ htmp
+      · exact Or.inl rfl
+      · simp only [PcInv]
+        exact Or.inr ⟨t, htmp, by simp [hlt]⟩
+      · exact Or.inl ⟨rfl, by simp⟩
+  all_goals exact h
+
+theorem Inv.act {old : Option File} {bufs : List Bytes} {fs : FS} (h : Inv old bufs fs) (a : Act) :
+    Inv old bufs (act fs a) := by
+  cases a with
+  | step i c =>
+    simp only [PsaDhcp.act]
+    split
+    next w hw => exact h.stepWriter hw c
+    · exact h
+  | kill i =>
+    simp only [PsaDhcp.act]
+    split
+    next w hw =>
+      split
+      · exact h
+      next hn =>
+        simp only [not_or] at hn
+        exact h.setPc hw hn.1 _ rfl rfl (by simp [PcInv]) (by simp)
+    · exact h
+
+theorem Inv.run {old : Option File} {bufs : List Bytes} (as : List Act) :
+    ∀ {fs : FS}, Inv old bufs fs → Inv old bufs (runFs fs as) := by
+  induction as with
+  | nil => intro fs h; exact h
+  | cons a as ih => intro fs h; exact ih (h.act a)
+
+theorem Inv.init (old : Option File) (bufs : List Bytes) : Inv old bufs (fsInit old bufs) := by
+  have key : ∀ (i : Nat) (w : Writer), (fsInit old bufs).ws[i]? = some w →
+      ∃ b, bufs[i]? = some b ∧ w = { buf := b } := by
+    intro i w hw
+    simp only [fsInit, List.getElem?_map, Option.map_eq_some_iff] at hw
+    obtain ⟨b, hb, rfl⟩ := hw
+    exact ⟨b, hb, rfl⟩
+  constructor
+  · intro i w hw
+    obtain ⟨b, hb, rfl⟩ := key i w hw
+    exact hb
+  · refine Or.inl ⟨rfl, ?_⟩
+    intro i w hw
+    obtain ⟨b, hb, rfl⟩ := key i w hw
+    simp
+  · intro i w t hw ht
+    obtain ⟨b, hb, rfl⟩ := key i w hw
+    simp at ht
+  · intro i j wi wj t hi hj _ ht
+    obtain ⟨b, hb, rfl⟩ := key i wi hi
+    simp at ht
+  · intro i w hw
+    obtain ⟨b, hb, rfl⟩ := key i w hw
+    simp [PcInv]
+
+theorem inv_run (old : Option File) (bufs : List Bytes) (as : List Act) :
+    Inv old bufs (runFs (fsInit old bufs) as) := Inv.run as (Inv.init old bufs)
+
+theorem reader_sees_whole_file (old : Option File) (bufs : List Bytes) (as : List Act) :
+    (runFs (fsInit old bufs) as).target = old ∨
+      ∃ w ∈ (runFs (fsInit old bufs) as).ws, w.pc = .doneOk ∧ (runFs (fsInit old bufs) as).target = some ⟨w.buf, 0o644⟩ := by
+  rcases (inv_run old bufs as).tgt with ⟨ho, _⟩ | ⟨i, w, hw, hp, ht⟩
+  · exact Or.inl ho
+  · exact Or.inr ⟨w, List.mem_of_getElem? hw, hp, ht⟩
+
+theorem failed_update_removes_temp (old : Option File) (bufs : List Bytes) (as : List Act) (i : Nat) (w : Writer)
+    (hw : (runFs (fsInit old bufs) as).ws[i]? = some w) (he : w.pc = .doneErr) :
+    w.tmp = none ∨ ∃ t, w.tmp = some t ∧ (runFs (fsInit old bufs) as).tmps[t]? = some none := by
+  have := (inv_run old bufs as).pcinv i w hw
+  simpa only [PcInv, he] using this
+
+/-- With a single buffer, the only writer is writer 0 and its buffer is `buf`. -/
+theorem lone {old : Option File} {buf : Bytes} {fs : FS} (h : Inv old [buf] fs) {i : Nat} {w : Writer}
+    (hw : fs.ws[i]? = some w) : i = 0 ∧ w.buf = buf := by
+  have := h.bufs i w hw
+  cases i with
+  | zero => simp at this; exact ⟨rfl, this.symm⟩
+  | succ n => simp at this
+
+theorem failed_update_keeps_previous (old : Option File) (buf : Bytes) (as : List Act) (w : Writer)
+    (hw : (runFs (fsInit old [buf]) as).ws[0]? = some w) (he : w.pc ≠ .doneOk) :
+    (runFs (fsInit old [buf]) as).target = old := by
+  have h := inv_run old [buf] as
+  rcases h.tgt with ⟨ho, _⟩ | ⟨i, x, hx, hp, _⟩
+  · exact ho
+  · obtain ⟨rfl, _⟩ := lone h hx
+    rw [hw] at hx; cases hx
+    exact absurd hp he
+
+theorem successful_update_installs (old : Option File) (buf : Bytes) (as : List Act) (w : Writer)
+    (hw : (runFs (fsInit old [buf]) as).ws[0]? = some w) (he : w.pc = .doneOk) :
+    (runFs (fsInit old [buf]) as).target = some ⟨buf, 0o644⟩ := by
+  have h := inv_run old [buf] as
+  rcases h.tgt with ⟨_, hall⟩ | ⟨i, x, hx, _, ht⟩
+  · exact absurd he (hall 0 w hw)
+  · obtain ⟨_, hb⟩ := lone h hx
+    rw [ht, hb]
+
+theorem temp_names_distinct (old : Option File) (bufs : List Bytes) (as : List Act) (i j : Nat) (wi wj : Writer) (t : Nat)
+    (hi : (runFs (fsInit old bufs) as).ws[i]? = some wi) (hj : (runFs (fsInit old bufs) as).ws[j]? = some wj)
+    (hne : i ≠ j) (ht : wi.tmp = some t) : wj.tmp ≠ some t :=
+  (inv_run old bufs as).distinct i j wi wj t hi hj hne ht
+
+theorem undisturbed_writer_succeeds (old : Option File) (buf : Bytes) :
+    ((runFs (fsInit old [buf]) (List.replicate 6 (.step 0 {}))).ws[0]?).map (·.pc) = some .doneOk ∧
+    (runFs (fsInit old [buf]) (List.replicate 6 (.step 0 {}))).target = some ⟨buf, 0o644⟩ := by
+  simp [runFs, fsInit, act, stepWriter, setW, setTmp, List.replicate]
+
 end PsaDhcp.Proofs.OsEdge
